@@ -161,7 +161,7 @@ CHECKS = {
     },
     "C09": {
         "lean": ["DrummerVerif.Props.C09"],
-        "streams": [dbstream("c09", 300, 5000, ["res", "T", "D", "F", "defs", "kv", "img"]), dbstream("general", 150, 2000, ["res", "T", "D", "F", "defs", "kv"])],
+        "streams": [dbstream("c09", 300, 5000, ["res", "T", "D", "F", "defs", "kv", "img"], replicas=True), dbstream("general", 150, 2000, ["res", "T", "D", "F", "defs", "kv"])],
         "rule": RULE_DB % "c09 (3 of 4 sequences are launch scenarios: definitions, launch batch, ticks with the completing reports placed one tick before / at / after the deadline, a member that never reports, repeated launch attempts, snapshots across the deadline, a reporting shard that is not defined) and general",
         "assumptions": DB_ASSUME,
     },
